@@ -567,8 +567,12 @@ class Supercell(object):
 
         # 2. identify the shortest common set of defects:
         defcount = {k: len(v) for k, v in selfdefects.items()}
-        deftype = min(defcount, key=defcount.get)  # key to min value from dictionary
-        shortset, matchset = selfdefects[deftype], otherdefects[deftype]
+        if len(defcount) == 0:
+            # no defects in either supercell: every operation passes the short-list test
+            shortset, matchset = set(), set()
+        else:
+            deftype = min(defcount, key=defcount.get)  # key to min value from dictionary
+            shortset, matchset = selfdefects[deftype], otherdefects[deftype]
 
         mapping = None
         gocc = self.occ.copy()
